@@ -1009,12 +1009,25 @@ def install_band(sess):
         alpha = a.get("alpha", 0.05)
         return (len(s.pos) > 0 and len(s.neg) > 0 and finite_arr(s.pos) and finite_arr(s.neg) and isinstance(alpha, float) and 0.0 < alpha < 1.0)
 
+    kept_bands = []  # the last band curves returned (all four functions), with copies of their arrays at return time
+
     def make(name):
         def pre(args, kwargs):
-            return len(sess.bs_log), len(sess.bci_log)
+            snaps = {k: (v, np.array(v, copy=True)) for k, v in kwargs.items() if k in ("thresholds", "fnr", "fpr") and isinstance(v, np.ndarray)}
+            return len(sess.bs_log), len(sess.bci_log), snaps
 
         def post(marks, args, kwargs, r):
-            n0, c0 = marks
+            n0, c0, snaps = marks
+            for k, (v, cp) in snaps.items():
+                sess.check("M-band", np.array_equal(v, cp, equal_nan=True), f"{name} changed a caller-supplied array", lambda: {"argument": k, "before": cp, "after": v},
+                           sig=("caller-array", name, k), key="band-caller-array")
+            for curve, arrs in kept_bands:
+                ok = all(np.array_equal(getattr(curve, nm_), cp_, equal_nan=True) for nm_, cp_ in arrs.items())
+                sess.check("M-band", ok, "a band curve returned earlier was changed by a later call",
+                           lambda: {"later_call": name, "thresholds_at_return": arrs["thresholds"], "thresholds_now": np.asarray(curve.thresholds)},
+                           sig=("kept-curve", name), key="band-kept-curve")
+            kept_bands.append((r, {nm_: np.array(getattr(r, nm_), copy=True) for nm_ in ("thresholds", "fnr", "fpr", "fnr_ci", "fpr_ci")}))
+            del kept_bands[:-4]
             a = dict(kwargs)
             s = args[0] if args else a.pop("scores")
             if not in_scope(s, a):
